@@ -156,7 +156,8 @@ theorem bal_ne_zero_mem_denom {l : Ledger} {a : Addr} {d : Denom} (h : bal l a d
 
 /-- under the invariant, the links of `MigrateValueOwner` are exactly the scopes `ex` holds -/
 theorem mem_scopesForValueOwner {l : Ledger} {ex : Addr} {d : ScopeId} {o : Option Addr}
-    (ho : HolderIs l d o) : d ∈ (scopesForValueOwner l ex).map (·.2) ↔ o = some ex := by
+    (ho : HolderIs l d o) (hsd : isScopeDenom d = true) :
+    d ∈ (scopesForValueOwner l ex).map (·.2) ↔ o = some ex := by
   unfold scopesForValueOwner
   simp only [List.map_map, List.mem_map, List.mem_filter, Function.comp]
   have hb := ho.2 ex
@@ -168,7 +169,15 @@ theorem mem_scopesForValueOwner {l : Ledger} {ex : Addr} {d : ScopeId} {o : Opti
   · intro hc
     have h1 : bal l ex d = 1 := by simpa [hc] using hb
     have hne : bal l ex d ≠ 0 := by rw [h1]; decide
-    exact ⟨d, ⟨mem_dedup.mpr (bal_ne_zero_mem_denom hne), by simp [h1]⟩, rfl⟩
+    exact ⟨d, ⟨mem_dedup.mpr (bal_ne_zero_mem_denom hne), by simp [h1, hsd]⟩, rfl⟩
+
+/-- `GetScopesForValueOwner` only ever returns scope denoms -/
+theorem scopesForValueOwner_scopeDenom {l : Ledger} {ex : Addr} {d : ScopeId}
+    (h : d ∈ (scopesForValueOwner l ex).map (·.2)) : isScopeDenom d = true := by
+  unfold scopesForValueOwner at h
+  simp only [List.map_map, List.mem_map, List.mem_filter, Function.comp, Bool.and_eq_true] at h
+  obtain ⟨d', ⟨_, h1, _⟩, rfl⟩ := h
+  exact h1
 
 theorem write_effect {s s' : State} {id : ScopeId} {owners : List Party} {rollup : Bool} {vo : Addr} {signers : List Addr}
     (hinv : Inv s) (h : writeScope s id owners rollup vo signers = .ok s') :
@@ -187,8 +196,9 @@ theorem write_effect {s s' : State} {id : ScopeId} {owners : List Party} {rollup
       | error e => rw [hsv] at h; simp at h
       | ok s2 =>
         rw [hsv] at h; simp at h; subst h
-        obtain ⟨hfr, hother, hid⟩ := setScopeValueOwner_spec (s := { s with grants := a.grants }) hinv.allHeld hsv
-        obtain ⟨o, ho, hne, _⟩ := hinv id
+        have hsd := validateWriteScope_scopeDenom hv
+        obtain ⟨hfr, hother, hid⟩ := setScopeValueOwner_spec (s := { s with grants := a.grants }) hinv.allHeld hsd hsv
+        obtain ⟨o, ho, hne, _⟩ := hinv id hsd
         refine ⟨by rw [hasScope_putScope]; simp, fun _ => ?_, hother⟩
         have := (hid o ho hne).1; rwa [optAddr_ne hvo] at this
     · rw [if_neg hvo] at h; simp at h; subst h
@@ -196,7 +206,7 @@ theorem write_effect {s s' : State} {id : ScopeId} {owners : List Party} {rollup
 
 theorem send_effect {s s' : State} {frm to : Addr} {ids : List ScopeId}
     (hinv : Inv s) (h : bankSend s frm to ids = .ok s') :
-    (∀ d ∈ ids, HolderIs s.ledger d (some frm)) ∧
+    (∀ d ∈ ids, isScopeDenom d = true → HolderIs s.ledger d (some frm)) ∧
     ∀ d o, HolderIs s.ledger d o → HolderIs s'.ledger d (if d ∈ ids then some to else o) := by
   unfold bankSend at h
   split at h
@@ -206,8 +216,8 @@ theorem send_effect {s s' : State} {frm to : Addr} {ids : List ScopeId}
     have hnd' : ids.Nodup := nodupB_iff.mp (by simpa using hvalid.2)
     split at h
     · simp at h
-    · refine ⟨fun d hd => ?_, fun d o ho => (sendCoins_holder hnd' h ho).2⟩
-      obtain ⟨o, ho, _, _⟩ := hinv d
+    · refine ⟨fun d hd hdd => ?_, fun d o ho => (sendCoins_holder hnd' h ho).2⟩
+      obtain ⟨o, ho, _, _⟩ := hinv d hdd
       have := (sendCoins_holder hnd' h ho).1 hd
       rw [this] at ho; exact ho
 
@@ -286,7 +296,7 @@ theorem write_grants {s s' : State} {id : ScopeId} {owners : List Party} {rollup
       | error e => rw [hsv] at h; simp at h
       | ok s2 =>
         rw [hsv] at h; simp at h; subst h
-        have hfr := (setScopeValueOwner_spec (s := { s with grants := a.grants }) hinv.allHeld hsv).1
+        have hfr := (setScopeValueOwner_spec (s := { s with grants := a.grants }) hinv.allHeld (validateWriteScope_scopeDenom hv) hsv).1
         intro g hg
         have : g ∈ a.grants := by have := hfr.grants; simp only [putScope] at hg; rw [this] at hg; exact hg
         exact hw.1 g this
@@ -310,7 +320,7 @@ theorem delete_grants {s s' : State} {id : ScopeId} {signers : List Addr}
       | error e => rw [hsv] at h; simp at h
       | ok s2 =>
         rw [hsv] at h; simp at h; subst h
-        have hfr := (setScopeValueOwner_spec (s := { s with grants := a.grants }) hinv.allHeld hsv).1
+        have hfr := (setScopeValueOwner_spec (s := { s with grants := a.grants }) hinv.allHeld (validateDeleteScope_scopeDenom hv) hsv).1
         intro g hg
         have : g ∈ a.grants := by have := hfr.grants; simp only [dropScope] at hg; rw [this] at hg; exact hg
         exact hw.1 g this
